@@ -61,10 +61,19 @@ def run(tier, seed):
                     new = 'check_h%d_v%d_f%d' % (hh, via, form)
                     qs.append(Query(new, src + '\n\n' + copy_fn(src, 'check', new, pre), new, 'main', 400, per_path=60, meta={}, label='E'))
                 else:
-                    for m0 in range(11):
-                        new = 'check_h%d_v%d_f%d_m%d' % (hh, via, form, m0)
-                        qs.append(Query(new, src + '\n\n' + copy_fn(src, 'check', new, pre + ' and m0 == %d and (extra == 10 or extra == 3 or extra == 4 or extra == 11 or extra == 12)' % m0),
-                                        new, 'main', 3000, per_path=60, meta={}, label='E'))
+                    # thorough: every import form for every hierarchy, more second members of the root class; hierarchies of
+                    # up to 2 classes take all 11 member options per class, larger ones the quick option set (a run with all
+                    # options everywhere did not finish in 4 hours)
+                    if n <= 2:
+                        pre += ' and (extra == 10 or extra == 3 or extra == 4 or extra == 11 or extra == 12)'
+                    else:
+                        pre += ' and (extra == 10 or extra == 4)'
+                        for i in range(n):
+                            pre += ' and ' + QUICK % ((i,) * 7)
+                        if n == 4:
+                            pre += ' and m0 != 10 and m0 != 1 and m3 != 9 and m3 != 2 and m1 != 9 and m1 != 0 and m2 != 7 and m2 != 1'
+                    new = 'check_h%d_v%d_f%d' % (hh, via, form)
+                    qs.append(Query(new, src + '\n\n' + copy_fn(src, 'check', new, pre), new, 'main', 3000, per_path=60, meta={}, label='E'))
     qs.append(Query('check__twin', src + '\n\n' + copy_fn(src, 'check', 'check__twin',
                                                         'h == 1 and via == 0 and form == 0 and m0 == 0 and m1 == 0 and extra == 10 and attr == 0', twin=True),
                     'check__twin', 'twin', 60))
@@ -80,7 +89,7 @@ def run(tier, seed):
                   'class (+ a second one in the root class) of kind method / class variable / self-assignment in __init__ / self-assignment in '
                   'another method / property or none, names from a 2-name alphabet (overrides at every level), root class in the same module or '
                   'reached by from-import / module attribute / star import, queried through an instance, the class, or self in a subclass method'
-                  + (' (quick: reduced second-member options)' if tier == 'quick' else '')]
+                  + (' (quick: 7 of 11 member options per class, reduced second-member options and import forms; thorough: all options for hierarchies of <= 2 classes, all import forms)')]
     rep.bounds.append('split forms are asked twice: on a fresh project and on a project that has already answered the same question through the other access path (class <-> instance)')
     rep.bounds.append('descriptor chains: obj.aa.zz where aa is decorated by property / a descriptor class with its own __get__ / one inheriting __get__ over 1-2 levels / '
                       'from a base in another module, x 0..2 subclasses x same module or lib.py x instance / self (60 programs)')
